@@ -209,8 +209,12 @@ func GenLeaf(t *rapid.T, ctx *Ctx, sc *Scenario, cfg CaseCfg, label string) (*Se
 		b, desc = p.Batch(sc), p.String()
 	case FamHuge:
 		p := GenWide(t)
-		p.N = rapid.SampledFrom([]int{65535, 65537, 66000, 70001}).Draw(t, "hugeN")
+		p.N = rapid.SampledFrom([]int{65535, 65537, 66000, 70001, 131073, 131200, 140000}).Draw(t, "hugeN")
 		p.DenseExact, p.GapField = 0, 0
+		if p.N > 131072 {
+			// one posting list with more than 2^17 hits: the dense term in every document
+			p.DenseSkip, p.NoFieldPer, p.ALo, p.AHi = 0, 0, 0, 0
+		}
 		if rapid.Bool().Draw(t, "hugeGap") {
 			p.GapField = rapid.SampledFrom([]int{65536, 65000, 66000}).Draw(t, "hugeGapStart")
 			if p.GapField >= p.N {
